@@ -10,8 +10,10 @@
    seconds); the zero time.Time is `zeroTime`.  The doubly linked page list first..last
    is a `list page` (head = conn.first).  A closed connection is removed from the pool
    (`s_conn = None`); its object goes back on the pool's free list and is the one handed
-   out for the next stream of this key (LIFO), which is why `lastSeen` survives
-   (connection.reset, assembly.go:388-396, does not reset it). *)
+   out for the next stream of this key (LIFO).  In the unrepaired code `lastSeen` survived
+   that (connection.reset, assembly.go:388-396, did not reset it); with the repair
+   "fix: tcpassembly resets lastSeen when a connection object is recycled" it is set to the
+   packet's timestamp, so s_freeLastSeen is recorded but no longer read. *)
 From GP Require Import Base.
 Open Scope Z_scope.
 
@@ -38,11 +40,15 @@ Definition seq_add (s t : Z) : Z := Z.land (s + t) 4294967295.
 Record reassembly := mkR {
   r_bytes : list Z; r_skip : Z; r_start : bool; r_end : bool; r_seen : Z; r_cut : Z }.
 
-(* ---- page, assembly.go:96-102 (index/buf/prev/next are representation) *)
-Record page := mkP { p_r : reassembly; p_seq : Z }.
+(* ---- page, assembly.go:96-102 (index/buf/prev/next are representation).
+   p_off is a GHOST: the absolute stream offset of the page's first byte as declared by the
+   operation that brought it (unbounded, never wrapped).  Ghosts are only copied, never tested:
+   they exist so that the window hypothesis can be stated on states (live_offsets below). *)
+Record page := mkP { p_r : reassembly; p_seq : Z; p_off : Z }.
 
 (* ---- connection, assembly.go:377-386 (key/stream/created/mu not modelled; closed = removed) *)
-Record conn := mkC { c_pages : Z; c_queue : list page; c_nextSeq : Z; c_lastSeen : Z }.
+(* c_pos is a GHOST: the absolute offset of the delivery point (meaningful when nextSeq is valid) *)
+Record conn := mkC { c_pages : Z; c_queue : list page; c_nextSeq : Z; c_lastSeen : Z; c_pos : Z }.
 
 (* ---- Assembler + StreamPool + pageCache restricted to one key *)
 Record state := mkS {
@@ -80,15 +86,15 @@ Fixpoint split_pages (fuel : nat) (seq : Z) (bytes : list Z) : list (Z * list Z)
     end
   end.
 
-Fixpoint mark_last_end (e : bool) (ts : Z) (l : list (Z * list Z)) : list page :=
+Fixpoint mark_last_end (e : bool) (ts : Z) (goff : Z) (l : list (Z * list Z)) : list page :=
   match l with
   | [] => []
-  | [(s, b)] => [mkP (mkR b 0 false e ts 0) s]
-  | (s, b) :: t => mkP (mkR b 0 false false ts 0) s :: mark_last_end e ts t
+  | [(s, b)] => [mkP (mkR b 0 false e ts 0) s goff]
+  | (s, b) :: t => mkP (mkR b 0 false false ts 0) s goff :: mark_last_end e ts (goff + lenZ b) t
   end.
 
-Definition pages_from_tcp (seq : Z) (bytes : list Z) (e : bool) (ts : Z) : list page :=
-  mark_last_end e ts (split_pages (S (length bytes)) seq bytes).
+Definition pages_from_tcp (seq : Z) (bytes : list Z) (e : bool) (ts : Z) (goff : Z) : list page :=
+  mark_last_end e ts goff (split_pages (S (length bytes)) seq bytes).
 
 (* ---- traverseConn, assembly.go:686-693: walking from the back, stop at the first page
    whose seq is not after `seq`; returns (first..prev, current..last). *)
@@ -112,6 +118,11 @@ Definition pop_page (nextSeq : Z) (p : page) : reassembly * Z :=
   let '(b, nx) := byte_span nextSeq (p_seq p) (r_bytes r) in
   (mkR b skip (r_start r) (r_end r) (r_seen r) (lenZ (r_bytes r) - lenZ b), nx).
 
+(* GHOST: the delivery point after popping page p *)
+Definition page_end (p : page) : Z := p_off p + lenZ (r_bytes (p_r p)).
+Definition pop_gpos (nextSeq gpos : Z) (p : page) : Z :=
+  if nextSeq =? invalidSequence then page_end p else Z.max gpos (page_end p).
+
 (* working state inside one API call: the locked connection, pc.used, a.ret *)
 Record work := mkW { w_c : conn; w_used : Z; w_ret : list reassembly }.
 
@@ -122,7 +133,8 @@ Definition add_next (w : work) : outcome work :=
   | [] => Panic 2
   | p :: rest =>
     let '(r, nx) := pop_page (c_nextSeq c) p in
-    Ok (mkW (mkC (c_pages c - 1) rest nx (c_lastSeen c)) (w_used w - 1) (w_ret w ++ [r]))
+    Ok (mkW (mkC (c_pages c - 1) rest nx (c_lastSeen c) (pop_gpos (c_nextSeq c) (c_pos c) p))
+            (w_used w - 1) (w_ret w ++ [r]))
   end.
 
 (* ---- addContiguous, assembly.go:639-643, as a recursion on the queue *)
@@ -140,7 +152,10 @@ Fixpoint contiguous (q : list page) (ns : Z) : list reassembly * list page * Z :
 Definition add_contiguous (w : work) : work :=
   let c := w_c w in
   let '(rs, q', ns) := contiguous (c_queue c) (c_nextSeq c) in
-  mkW (mkC (c_pages c - lenZ rs) q' ns (c_lastSeen c)) (w_used w - lenZ rs) (w_ret w ++ rs).
+  let popped := firstn (length rs) (c_queue c) in
+  mkW (mkC (c_pages c - lenZ rs) q' ns (c_lastSeen c)
+           (fold_left (fun g p => Z.max g (page_end p)) popped (c_pos c)))
+      (w_used w - lenZ rs) (w_ret w ++ rs).
 
 (* result of the part of an API call that runs under the connection lock *)
 Record res := mkRes {
@@ -177,15 +192,15 @@ Definition skip_flush (c : conn) (free used : Z) (calls : list (list reassembly)
 
 (* ---- insertIntoConn, assembly.go:715-730 *)
 Definition insert_into_conn (maxPer maxTotal : Z) (seq : Z) (bytes : list Z) (e : bool) (ts : Z)
-    (w : work) : outcome work :=
+    (goff : Z) (w : work) : outcome work :=
   let c := w_c w in
   let wtf := match c_queue c with p :: _ => p_seq p =? c_nextSeq c | [] => false end in
   if wtf then Panic 1 else
-  let ps := pages_from_tcp seq bytes e ts in
+  let ps := pages_from_tcp seq bytes e ts goff in
   let n := lenZ ps in
   let used1 := w_used w + n in
   let '(a, b) := traverse (c_queue c) seq in
-  let c1 := mkC (c_pages c + n) (a ++ ps ++ b) (c_nextSeq c) (c_lastSeen c) in
+  let c1 := mkC (c_pages c + n) (a ++ ps ++ b) (c_nextSeq c) (c_lastSeen c) (c_pos c) in
   let w1 := mkW c1 used1 (w_ret w) in
   if ((maxPer >? 0) && (c_pages c1 >=? maxPer)) || ((maxTotal >? 0) && (used1 >=? maxTotal))
   then add_next w1 else Ok w1.
@@ -193,6 +208,7 @@ Definition insert_into_conn (maxPer maxTotal : Z) (seq : Z) (bytes : list Z) (e 
 (* ---- operations of the public API *)
 Inductive op :=
 | Segment (seq : Z) (syn fin rst : bool) (payload : list Z) (ts : Z)
+          (goff : Z)   (* GHOST: absolute offset of the payload's first byte (0 for the SYN) *)
 | FlushOlderThan (t : Z)
 | FlushAll.
 
@@ -222,7 +238,7 @@ Definition finish_assemble (st : state) (isnew : bool) (ow : outcome work) : sta
 
 (* ---- AssembleWithTimestamp, assembly.go:567-605: the part under the connection lock *)
 Definition assemble_conn (st : state) (c : conn) (isnew : bool)
-    (seq : Z) (syn fin rst : bool) (bytes : list Z) (ts : Z) : state * out :=
+    (seq : Z) (syn fin rst : bool) (bytes : list Z) (ts : Z) (goff : Z) : state * out :=
   let w0 := mkW c (s_used st) [] in
   (* repaired code (fix: payload of a SYN seen after the position is known starts at
      seq+1); insertIntoConn still reads t.Seq *)
@@ -230,33 +246,36 @@ Definition assemble_conn (st : state) (c : conn) (isnew : bool)
   finish_assemble st isnew
     (if c_nextSeq c =? invalidSequence then
       if syn then
-        Ok (mkW (mkC (c_pages c) (c_queue c) (seq_add seq (lenZ bytes + 1)) (c_lastSeen c))
+        Ok (mkW (mkC (c_pages c) (c_queue c) (seq_add seq (lenZ bytes + 1)) (c_lastSeen c)
+                     (goff + lenZ bytes))
                 (s_used st) [mkR bytes 0 true false ts 0])
-      else insert_into_conn (s_maxPer st) (s_maxTotal st) seq bytes (rst || fin) ts w0
+      else insert_into_conn (s_maxPer st) (s_maxTotal st) seq bytes (rst || fin) ts goff w0
     else if difference (c_nextSeq c) seq1 >? 0 then
-      insert_into_conn (s_maxPer st) (s_maxTotal st) seq bytes (rst || fin) ts w0
+      insert_into_conn (s_maxPer st) (s_maxTotal st) seq bytes (rst || fin) ts goff w0
     else
       let '(b, nx) := byte_span (c_nextSeq c) seq1 bytes in
-      Ok (mkW (mkC (c_pages c) (c_queue c) nx (c_lastSeen c)) (s_used st)
+      Ok (mkW (mkC (c_pages c) (c_queue c) nx (c_lastSeen c) (Z.max (c_pos c) (goff + lenZ bytes)))
+              (s_used st)
               [mkR b 0 false (rst || fin) ts (lenZ bytes - lenZ b)])).
 
 Definition assemble_locked (st : state) (c0 : conn) (isnew : bool)
-    (seq : Z) (syn fin rst : bool) (bytes : list Z) (ts : Z) : state * out :=
+    (seq : Z) (syn fin rst : bool) (bytes : list Z) (ts : Z) (goff : Z) : state * out :=
   (* assembly.go:567-569 *)
-  let c := if c_lastSeen c0 <? ts then mkC (c_pages c0) (c_queue c0) (c_nextSeq c0) ts else c0 in
-  assemble_conn st c isnew seq syn fin rst bytes ts.
+  let c := if c_lastSeen c0 <? ts then mkC (c_pages c0) (c_queue c0) (c_nextSeq c0) ts (c_pos c0) else c0 in
+  assemble_conn st c isnew seq syn fin rst bytes ts goff.
 
 (* ---- AssembleWithTimestamp, assembly.go:536-566 (with getConnection :498-515 and
    newConnection/reset) *)
 Definition assemble (st : state) (seq : Z) (syn fin rst : bool) (bytes : list Z) (ts : Z)
-    : state * out :=
+    (goff : Z) : state * out :=
   if negb syn && negb fin && negb rst && isnil bytes then (st, no_out) else
   let endp := negb syn && isnil bytes in
   match s_conn st with
-  | Some c => assemble_locked st c false seq syn fin rst bytes ts
+  | Some c => assemble_locked st c false seq syn fin rst bytes ts goff
   | None =>
     if endp then (st, no_out)
-    else assemble_locked st (mkC 0 [] invalidSequence (s_freeLastSeen st)) true seq syn fin rst bytes ts
+    (* connection.reset (with the repair of agent-c11: lastSeen = ts) *)
+    else assemble_locked st (mkC 0 [] invalidSequence ts 0) true seq syn fin rst bytes ts goff
   end.
 
 (* ---- FlushWithOptions{CloseAll:true, T}, assembly.go:238-274, for the one connection.
@@ -329,7 +348,7 @@ Definition dead_out : out := mkOut false [] false true.
 Definition step (st : state) (o : op) : state * out :=
   if s_dead st then (st, dead_out) else
   match o with
-  | Segment seq syn fin rst payload ts => assemble st seq syn fin rst payload ts
+  | Segment seq syn fin rst payload ts goff => assemble st seq syn fin rst payload ts goff
   | FlushOlderThan t => flush_older st t
   | FlushAll => flush_all st
   end.
@@ -337,6 +356,20 @@ Definition step (st : state) (o : op) : state * out :=
 (* pages in use, for the lift to many connections (C11) *)
 Definition pages_in_use (st : state) : Z := s_used st.
 Definition conn_pages (st : state) : Z := match s_conn st with Some c => c_pages c | None => 0 end.
+
+(* ---- GHOST: the live offsets of a state and an arriving operation (window hypothesis W:
+   they lie in an interval of width < 2^30) *)
+Definition live_offsets (st : state) (o : op) : list Z :=
+  match s_conn st with
+  | Some c =>
+    (if c_nextSeq c =? invalidSequence then [] else [c_pos c]) ++
+    flat_map (fun p => [p_off p; page_end p]) (c_queue c)
+  | None => []
+  end ++
+  match o with
+  | Segment _ _ _ _ payload _ goff => [goff; goff + lenZ payload]
+  | _ => []
+  end.
 
 (* ---- branch tags (for the non-triviality count; computed from pre-state, op, output) *)
 Definition tag_out_of_order_queue := 1.
@@ -360,7 +393,7 @@ Definition tags_of (st : state) (o : op) (st' : state) (ou : out) : list Z :=
   let wrapped := if (0 <=? ns) && (0 <=? ns') && (ns' <? ns) then [tag_wrap_crossed] else [] in
   trims ++ drops ++ wrapped ++
   match o with
-  | Segment seq0 syn fin rst payload ts =>
+  | Segment seq0 syn fin rst payload ts _ =>
     let seq := if syn && negb (ns =? invalidSequence) then seq_add seq0 1 else seq0 in
     let queued := negb (o_panic ou) && negb (syn && (ns =? invalidSequence)) &&
                   negb (negb syn && negb fin && negb rst && isnil payload) &&
